@@ -35,9 +35,15 @@ type Op struct {
 }
 
 type History struct {
+	// Layout: "" = the project root is a plain directory; "rootlink" = the root is opened through a symbolic link;
+	// "dawnlink" = <root>/.dawn is a symbolic link to a directory elsewhere
+	Layout   string `json:"layout,omitempty"`
 	Template string `json:"template"`
 	Proj     *Proj  `json:"proj"`
 	Ops      []Op   `json:"ops"`
+	// a same-process sequence (C13): Load once, then one Run of RunTarget per entry of Runs
+	Runs      []RunOpt `json:"runs,omitempty"`
+	RunTarget string   `json:"runTarget,omitempty"`
 }
 
 type recView struct {
@@ -70,6 +76,8 @@ type Obs struct {
 	TreeAfter  string
 	Stderr     string
 	Wall       time.Duration
+	EventsRaw  []string
+	ExecRaw    []string
 }
 
 type runner struct {
@@ -139,7 +147,9 @@ func (r *runner) runChild(spec childSpec, pinned bool) (*Obs, error) {
 			return nil, err
 		}
 	}
-	for _, line := range readLines(filepath.Join(ctlDir, "events.log")) {
+	o.EventsRaw = readLines(filepath.Join(ctlDir, "events.log"))
+	o.ExecRaw = readLines(filepath.Join(ctlDir, "exec.log"))
+	for _, line := range o.EventsRaw {
 		f := strings.Split(line, "\t")
 		if len(f) < 2 {
 			continue
@@ -422,6 +432,9 @@ func b2i(b bool) int {
 }
 
 func copyTree(src, dst string, skipDawn bool) error {
+	if real, err := filepath.EvalSymlinks(src); err == nil {
+		src = real // the root may be a symbolic link
+	}
 	return filepath.Walk(src, func(p string, info os.FileInfo, err error) error {
 		if err != nil {
 			return err
@@ -435,6 +448,12 @@ func copyTree(src, dst string, skipDawn bool) error {
 		}
 		if info.IsDir() {
 			return os.MkdirAll(filepath.Join(dst, rel), 0o755)
+		}
+		if info.Mode()&os.ModeSymlink != 0 {
+			// a symbolic link to a directory (the `dawnlink` layout): copy what it points to
+			if st, err := os.Stat(p); err == nil && st.IsDir() {
+				return copyTree(p, filepath.Join(dst, rel), false)
+			}
 		}
 		b, err := os.ReadFile(p)
 		if err != nil {
@@ -462,6 +481,21 @@ func allGens(p *Proj) []string {
 func (r *runner) play(h *History, po playOpts) *played {
 	root := r.tmp("proj")
 	defer os.RemoveAll(root)
+	switch h.Layout {
+	case "rootlink":
+		link := root + "-link"
+		if err := os.Symlink(root, link); err != nil {
+			return &played{err: err}
+		}
+		defer os.Remove(link)
+		return r.playIn(h, po, link)
+	case "dawnlink":
+		elsewhere := r.tmp("dawn-elsewhere")
+		defer os.RemoveAll(elsewhere)
+		if err := os.Symlink(elsewhere, filepath.Join(root, ".dawn")); err != nil {
+			return &played{err: err}
+		}
+	}
 	return r.playIn(h, po, root)
 }
 
@@ -570,7 +604,10 @@ func (r *runner) playIn(h *History, po playOpts, root string) *played {
 			spec := childSpec{Root: root, Op: "build", Target: op.Target, Always: op.Always, Dry: op.Dry, Fail: op.Fail,
 				CrashAt: op.CrashAt, CrashPhase: op.CrashPhase}
 			crash := op.CrashAt > 0 || op.CrashHook != ""
-			if op.CrashHook != "" {
+			if op.CrashHook != "" && op.CrashPhase == "load" {
+				// the first hit of a named hook point for a named target during the load (e.g. the very first save of a record)
+				spec.CrashHook, spec.CrashLabel, spec.CrashPhase = op.CrashHook, op.CrashLabel, "load"
+			} else if op.CrashHook != "" {
 				// find k: the position of the first hit of (hook, label) in an uninterrupted pinned twin of this build
 				k, err := r.findCrashPoint(root, spec, op.CrashHook, op.CrashLabel)
 				if err != nil {
@@ -602,6 +639,13 @@ func (r *runner) playIn(h *History, po playOpts, root string) *played {
 			}
 			sort.Ints(fails)
 			switch {
+			case crash && spec.CrashPhase == "load" && !o.Crashed:
+				// the point was not reached: the build ran to completion
+				emit(fmt.Sprintf("build %d %d %d %s", n.label(op.Target), b2i(op.Always), b2i(op.Dry), natList(fails)), c.buildAnswer(o))
+			case crash && spec.CrashPhase == "load" && spec.CrashHook != "":
+				ws := c.world(o)
+				ws = strings.Replace(ws, fmt.Sprintf(" T=%d ", o.Temps), " T=? ", 1)
+				emit(fmt.Sprintf("crashload %d %d", len(o.LoadTrace), o.Temps), "ok "+ws)
 			case crash && spec.CrashPhase == "load":
 				// packages load concurrently: the number of temporaries in flight at the k-th hook point is not determined
 				ws := c.world(o)
@@ -652,7 +696,7 @@ func (r *runner) findCrashPoint(root string, spec childSpec, hook, label string)
 		if h.hook == "rs" {
 			seenRS = true
 		}
-		if h.hook == hook || (hook == "sr-after-rs" && h.hook == "sr" && seenRS) {
+		if h.hook == hook || (strings.HasSuffix(hook, "-after-rs") && h.hook == strings.TrimSuffix(hook, "-after-rs") && seenRS) {
 			return i + 1, nil
 		}
 	}
